@@ -23,16 +23,27 @@
 (*              num |-> [field |-> <<Int, ...>>]]       numeric, datetime  *)
 (*                      (day numbers) and boolean (0/1) fields             *)
 (*   query     [type |-> "...", ...]  (see Eval)                           *)
-(*   mode      [transp |-> BOOLEAN]   transp = TRUE: a transposition of    *)
-(*             two adjacent letters counts as ONE edit in fuzzy matching   *)
-(*             (what scorch's Levenshtein automaton does; the documented   *)
-(*             metric is plain Levenshtein = Strict).  Used only to        *)
-(*             classify an observed deviation, never to excuse it.         *)
+(*   mode      Strict is the documented meaning and the only mode the       *)
+(*             properties are stated in.  The other switches describe      *)
+(*             deviations OBSERVED in the real engines; the judges use     *)
+(*             them only to give an observed violation of the strict       *)
+(*             meaning a stable name (known-finding signature), never to   *)
+(*             excuse it:                                                  *)
+(*             transp  a transposition of two adjacent letters counts as   *)
+(*                     ONE edit in fuzzy matching (scorch's automaton;     *)
+(*                     documented: Levenshtein)                            *)
+(*             k1      a boolean query's should-minimum is ignored where   *)
+(*                     the harness saw the should searcher lose its Min()  *)
+(*                     (node field k1 = 1: unadorned disjunction under     *)
+(*                     score:none); k1f: the same below filter clauses     *)
+(*                     (filters are always built with score:none)          *)
+(*             lmf     a regular expression is matched leftmost-first and  *)
+(*                     the FIRST match must span the term (upsidedown:     *)
+(*                     FindStringIndex), instead of "some match spans it"  *)
 (***************************************************************************)
 EXTENDS Naturals, Integers, Sequences, FiniteSets
 
-Strict   == [transp |-> FALSE]
-Tolerant == [transp |-> TRUE]
+Strict == [transp |-> FALSE, k1 |-> FALSE, k1f |-> FALSE, lmf |-> FALSE]
 
 Max2(a, b) == IF a >= b THEN a ELSE b
 Min2(a, b) == IF a <= b THEN a ELSE b
@@ -97,6 +108,26 @@ AltMatch(alt, t) ==
                         /\ AltMatch(<<[cls |-> a.cls, rep |-> 1]>> \o rest, Tail(t))
 
 ReMatch(alts, t) == \E i \in DOMAIN alts : AltMatch(alts[i], t)
+
+\* leftmost-first (mode.lmf): the length of the match a backtracking matcher
+\* with greedy quantifiers finds first for one alternative at position 0
+\* (-1: none); the first alternative that matches at all decides
+RECURSIVE PrefLen(_, _)
+PrefLen(alt, t) ==
+    IF Len(alt) = 0 THEN 0
+    ELSE LET a == alt[1]
+             rest == Tail(alt)
+             can == Len(t) > 0 /\ AtomHas(a, t[1])
+             one == IF can THEN PrefLen(rest, Tail(t)) ELSE -1
+             more == IF can THEN PrefLen(IF a.rep = 2 THEN <<[cls |-> a.cls, rep |-> 1]>> \o rest ELSE alt, Tail(t)) ELSE -1
+         IN  CASE a.rep = 0 -> IF one >= 0 THEN 1 + one ELSE -1
+               [] a.rep = 3 -> IF one >= 0 THEN 1 + one ELSE PrefLen(rest, t)
+               [] a.rep = 1 -> IF more >= 0 THEN 1 + more ELSE PrefLen(rest, t)
+               [] a.rep = 2 -> IF more >= 0 THEN 1 + more ELSE -1
+
+ReMatchLMF(alts, t) ==
+    LET m == { i \in DOMAIN alts : PrefLen(alts[i], t) >= 0 } IN
+    m # {} /\ PrefLen(alts[CHOOSE i \in m : \A j \in m : i <= j], t) = Len(t)
 
 (***************************************************************************)
 (* Edit distance.  Lev = Levenshtein (insert, delete, substitute).  With   *)
@@ -184,7 +215,8 @@ Eval(q, d, mode) ==
     [] q.type \in {"phrase", "match_phrase"} -> PhraseIn(d, q.field, q.terms)
     [] q.type = "prefix"   -> \E t \in Terms(d, q.field) : IsPrefix(q.prefix, t)
     [] q.type = "wildcard" -> \E t \in Terms(d, q.field) : WildMatch(q.pat, t)
-    [] q.type = "regexp"   -> \E t \in Terms(d, q.field) : ReMatch(q.alts, t)
+    [] q.type = "regexp"   -> \E t \in Terms(d, q.field) :
+                                 IF mode.lmf THEN ReMatchLMF(q.alts, t) ELSE ReMatch(q.alts, t)
     [] q.type = "fuzzy"    -> HasFuzzy(d, q.field, q.term, q.fuzz, q.prefix, mode)
     [] q.type = "termrange" -> \E t \in Terms(d, q.field) : InTermRange(t, q)
     [] q.type \in {"numrange", "daterange"} -> \E v \in Vals(d, q.field) : InNumRange(v, q)
@@ -198,9 +230,10 @@ Eval(q, d, mode) ==
          /\ Len(q.must) + Len(q.should) + Len(q.mustnot) + Len(q.filter) > 0
          /\ \A i \in DOMAIN q.must : Eval(q.must[i], d, mode)
          /\ \A i \in DOMAIN q.mustnot : ~Eval(q.mustnot[i], d, mode)
-         /\ \A i \in DOMAIN q.filter : Eval(q.filter[i], d, mode)
+         /\ \A i \in DOMAIN q.filter : Eval(q.filter[i], d, [mode EXCEPT !.k1 = mode.k1f])
          /\ (Len(q.should) > 0 =>
-              Count(q.should, d, mode) >= (IF Len(q.must) = 0 THEN Max2(1, q.min) ELSE q.min))
+              \/ (mode.k1 /\ q.k1 = 1)
+              \/ Count(q.should, d, mode) >= (IF Len(q.must) = 0 THEN Max2(1, q.min) ELSE q.min))
 
 (***************************************************************************)
 (* The answer: ids of the live documents (corpus = sequence of the live    *)
